@@ -14,6 +14,11 @@ def format_number(n, n_type):
             desired_total_digits = 7
             n = round(n, ndigits=desired_total_digits-before_decimal)
     s = str(n)
+    if n_type == CellType.SINGLE and 'e' in s:
+        # exponent form: seven significant digits as well (str()
+        # shows the digits of the value widened to a double)
+        mantissa, exponent = ('%.6e' % n).split('e')
+        s = mantissa.rstrip('0').rstrip('.') + 'e' + exponent
     if s.endswith('.0'):
         s = s[:-2]
     if 'e' in s and n_type == CellType.DOUBLE:
